@@ -16,7 +16,7 @@ import traceback
 import types
 import z3
 
-from .values import SV, Loc, Unsupported, lift, simp, concrete_of, has_sym, kind_of
+from .values import SV, Loc, Unsupported, lift, simp, concrete_of, has_sym, kind_of, fresh
 from .state import Explorer, State, PathEnd, PyRaise, guarded_check
 from .interp import Interp, function_ast, qualname_of
 from . import api
@@ -134,19 +134,45 @@ def make_runner(c, f, mutate, sink, fixed=None, case=None):
         if c.cuts:
             import ast as _ast
 
+            def _occurrences(prefix):
+                found = []
+                for nd in _ast.walk(node):
+                    if isinstance(nd, _ast.stmt):
+                        try:
+                            if _ast.unparse(nd).startswith(prefix):
+                                found.append((nd.lineno, nd.col_offset))
+                        except Exception:
+                            pass
+                return sorted(found)
+            cut_sites = [_occurrences(p_) for (p_, _f, _k, _a) in c.cuts]
+
             def cut_hook(fr, stmt):
                 try:
                     text = _ast.unparse(stmt)
                 except Exception:
                     return
-                for k_, (prefix, fn_) in enumerate(c.cuts):
+                for k_, (prefix, fn_, nth_, forget_) in enumerate(c.cuts):
                     if text.startswith(prefix):
+                        if nth_ is not None and (nth_ >= len(cut_sites[k_]) or cut_sites[k_][nth_] != (stmt.lineno, stmt.col_offset)):
+                            continue
                         vals = dict(fr.env)
                         vals.update({kk: vv for kk, vv in values.items() if kk not in vals})
                         for j_, cl in enumerate(clauses(eval_cfn(ip, fn_, vals, old_heap))):
                             z_ = ip.zbool(cl)
                             st.oblige('cut', "%d.%d after %s" % (k_, j_, prefix[:40]), z_)
                             st.assume(z_)
+                        if forget_:
+                            # abstraction point: from here on the local is an unknown integer of which only the clauses
+                            # just proved are known (sound: it forgets, never adds)
+                            for nm_ in forget_:
+                                old_ = fr.env.get(nm_)
+                                if not (isinstance(old_, int) or (isinstance(old_, SV) and old_.kind == 'int')):
+                                    raise Unsupported("cut forgets %s which is not an integer local" % nm_)
+                                fr.env[nm_] = fresh(nm_ + "_cut", 'int')
+                            vals = dict(fr.env)
+                            vals.update({kk: vv for kk, vv in values.items() if kk not in vals})
+                            for cl in clauses(eval_cfn(ip, fn_, vals, old_heap)):
+                                st.assume(ip.zbool(cl))
             ip.cut_hook = cut_hook
         if c.at_return is not None:
             rnode, _ = function_ast(c.at_return)
@@ -425,6 +451,9 @@ def _solve(ob, both):
     if out['status'] == 'undecided' or (both and out['status'] == 'discharged'):
         text = "(set-logic ALL)\n" + s.to_smt2()
         text = text.replace('seq.nth_i', 'seq.nth').replace('seq.nth_u', 'seq.nth')
+        if os.environ.get('PYVC_DUMP_DIR'):      # development aid: keep the queries the in-process solver left open
+            with open(os.path.join(os.environ['PYVC_DUMP_DIR'], ''.join(ch if ch.isalnum() or ch in '_.@#-' else '_' for ch in ob.oid)[-120:] + '.smt2'), 'w') as fh_:
+                fh_.write(text)
         budget = max(CVC5_TIMEOUT_MS, Z3_TIMEOUT_MS) / 1000.0
         who, ans, answers = _race(text, budget)
         if out['status'] == 'discharged':
